@@ -14,6 +14,7 @@ import (
 	"sort"
 	"strconv"
 	"sync"
+	"sync/atomic"
 	"time"
 )
 
@@ -166,10 +167,39 @@ func (c *Ctx) Cases(f func(i int, r *Rand)) {
 		f(c.Only, c.CaseRand(c.Only))
 		return
 	}
+	// bounded progress for every check: one case (the longest take seconds) that
+	// has not finished after ten minutes is a hang of the code under test - a
+	// loop that makes no progress, a lock never released - and is recorded as a
+	// violation with the goroutine dump; the driver's external watchdog (15
+	// minutes and more) would only make the run inconclusive.
+	var started, index int64
+	done := make(chan struct{})
+	defer close(done)
+	go func() {
+		t := time.NewTicker(5 * time.Second)
+		defer t.Stop()
+		for {
+			select {
+			case <-done:
+				return
+			case <-t.C:
+				if st := atomic.LoadInt64(&started); st != 0 && time.Since(time.Unix(0, st)) > 10*time.Minute {
+					buf := make([]byte, 1<<20)
+					n := runtime.Stack(buf, true)
+					c.violation("case-does-not-finish", map[string]interface{}{"why": fmt.Sprintf("case %d of this batch has been running for more than ten minutes; goroutine dump attached", atomic.LoadInt64(&index)), "goroutines": trimDump(string(buf[:n]))}, true)
+					c.Finish()
+					os.Exit(1)
+				}
+			}
+		}
+	}()
 	for i := 0; i < c.N; i++ {
 		c.setCase(i)
+		atomic.StoreInt64(&index, int64(i))
+		atomic.StoreInt64(&started, time.Now().UnixNano())
 		f(i, c.CaseRand(i))
 	}
+	atomic.StoreInt64(&started, 0)
 }
 
 func (c *Ctx) setCase(i int) {
